@@ -62,7 +62,7 @@ RunMW(st, cur, rest, q, acc, early, fin, live0) ==
     ELSE
         LET ev   == Head(q)
             \* An Expiration event for a dead entry whose in-flight load is about to complete is ambiguous: the
-            \* completing load replaced the dead node, or the sweep removed it first (which cancels the load,
+            \* completing load replaced the dead node, or the sweep removed it first (before fix F24 that cancelled the load,
             \* C09).  Both are legal; what happened is read off the rest of the log / the final projection.
             later(w) == \/ \E j \in DOMAIN q : j > 1 /\ q[j].k = w.k /\ q[j].v = w.v /\ q[j].c # "L"
                         \/ (w.k \in DOMAIN fin /\ fin[w.k].p = 1 /\ fin[w.k].v = w.v)
@@ -75,7 +75,9 @@ RunMW(st, cur, rest, q, acc, early, fin, live0) ==
                                   !.nex = @ + (IF ev.c = "Expiration" THEN 1 ELSE 0),
                                   !.wov = @ + (IF ev.c = "Overflow" THEN wgt ELSE 0),
                                   !.wex = @ + (IF ev.c = "Expiration" THEN wgt ELSE 0),
-                                  !.evk = @ \cup {ev.k}]
+                                  \* only the eviction of a LIVE value cancels the in-flight load of its key; the removal of an expired entry
+                                  \* changes nothing a caller can see and cancels nothing (finding F24)
+                                  !.evk = IF ev.c = "Expiration" THEN @ ELSE @ \cup {ev.k}]
         IN IF cand # {}
            THEN LET w == CHOOSE x \in cand : TRUE
                 IN RunMW(ExecMW(st, w), cur \ {w}, rest, Tail(q),
